@@ -28,10 +28,56 @@ def _variants(facts, adt):
 
 
 class Shape:
-    __slots__ = ('adt', 'variant', 'vidx', 'nested')
+    __slots__ = ('adt', 'variant', 'vidx', 'nested', 'ops')
 
-    def __init__(self, adt, variant, vidx, nested=None):
+    def __init__(self, adt, variant, vidx, nested=None, ops=None):
         self.adt, self.variant, self.vidx, self.nested = adt, variant, vidx, nested or {}
+        self.ops = list(ops) if ops is not None else []      # the operands the value was built from (None once stale)
+
+
+def _kill(env, l):
+    """local l is (re)assigned: operands of known values that read it are stale"""
+    seen = set()
+
+    def walk(s):
+        if not isinstance(s, Shape) or id(s) in seen:
+            return
+        seen.add(id(s))
+        for i, o in enumerate(s.ops):
+            if isinstance(o, dict) and o.get('k') in ('copy', 'move') and (o['p']['l'] == l or any(isinstance(x, dict) and x.get('idx') == l for x in o['p']['pr'])):
+                s.ops[i] = None
+        for x in s.nested.values():
+            walk(x)
+    for v in list(env.values()):
+        walk(v)
+
+
+def _resolve_op(env, place):
+    """the operand a read of `place` yields when the base local holds a known value: (B as V).i -> the i-th operand B was built
+    from (remaining projections are applied to it)"""
+    s = env.get(place['l'])
+    pr = list(place['pr'])
+    op = None
+    while pr:
+        if not (isinstance(s, Shape) and len(pr) >= 2 and isinstance(pr[0], dict) and 'dc' in pr[0] and isinstance(pr[1], dict) and 'f' in pr[1]):
+            break
+        if pr[0]['dc'] != s.variant:
+            return None
+        i = pr[1]['i']
+        op = s.ops[i] if i < len(s.ops) else None
+        s = s.nested.get(i)
+        pr = pr[2:]
+        if op is None:
+            return None
+        if s is None:
+            break
+    if op is None:
+        return None
+    if not pr:
+        return op
+    if op.get('k') in ('copy', 'move'):
+        return {'k': 'copy', 'p': {'l': op['p']['l'], 'pr': list(op['p']['pr']) + pr}}
+    return None
 
 
 def _whole(o):
@@ -57,6 +103,7 @@ def _step_stmt(facts, env, st):
     k = st['k']
     if k == 'setdiscr':
         env.pop(st['p']['l'], None)
+        _kill(env, st['p']['l'])
         return
     if k != 'assign':
         return
@@ -64,11 +111,13 @@ def _step_stmt(facts, env, st):
     if p['pr']:
         if '*' not in p['pr'][:1]:
             env.pop(p['l'], None)
+            _kill(env, p['l'])
         else:
             # a store through a pointer: anything whose address was taken is already out of env
             pass
         return
     a = p['l']
+    _kill(env, a)
     rk = r.get('k')
     new = None
     if rk == 'agg' and r.get('agg') == 'adt' and r.get('variant') is not None:
@@ -80,7 +129,7 @@ def _step_stmt(facts, env, st):
                     s = _resolve(env, o['p'])
                     if s is not None:
                         nested[i] = s
-            new = Shape(r['adt'], r['variant'], vs.index(r['variant']), nested)
+            new = Shape(r['adt'], r['variant'], vs.index(r['variant']), nested, r.get('ops', []))
     elif rk == 'use' and r['a'].get('k') in ('copy', 'move'):
         new = _resolve(env, r['a']['p'])
     elif rk == 'discr':
@@ -90,6 +139,7 @@ def _step_stmt(facts, env, st):
     elif rk in ('ref', 'addr') and isinstance(r.get('p'), dict):
         if r.get('mut') or rk == 'addr':
             env.pop(r['p']['l'], None)
+            _kill(env, r['p']['l'])
     if new is None:
         env.pop(a, None)
     else:
@@ -163,6 +213,7 @@ def thread_returns(facts, j, first_inlined, headers):
         chain = []          # (orig block, cloned block json, resolved?)
         seen = set()
         resolved_at = -1
+        keep_to = -1
         final = nxt
         while len(chain) < MAXCHAIN:
             x = final
@@ -170,7 +221,17 @@ def thread_returns(facts, j, first_inlined, headers):
                 break
             xb = blocks[x]
             e2 = dict(env)
+            cstmts = []
+            rewrote = False
             for st in xb['stmts']:
+                cs = copy.deepcopy(st)
+                if cs['k'] == 'assign' and cs['r'].get('k') == 'use' and cs['r']['a'].get('k') in ('copy', 'move') and cs['r']['a']['p']['pr']:
+                    # a payload read of a value whose construction is known on this path: read the operand it was built from
+                    op = _resolve_op(e2, cs['r']['a']['p'])
+                    if op is not None:
+                        cs['r'] = {'k': 'use', 'a': ({'k': 'copy', 'p': op['p']} if op.get('k') in ('copy', 'move') else op)}
+                        rewrote = True
+                cstmts.append(cs)
                 _step_stmt(facts, e2, st)
             xt = xb['term']
             k = xt['k']
@@ -178,6 +239,7 @@ def thread_returns(facts, j, first_inlined, headers):
                 tg, res = xt['target'], False
             elif k == 'drop':
                 e2.pop(xt['p']['l'], None)
+                _kill(e2, xt['p']['l'])
                 tg, res = xt['target'], False
             elif k == 'switch':
                 tg = _switch_target(e2, xt)
@@ -188,21 +250,45 @@ def thread_returns(facts, j, first_inlined, headers):
                 s = _call_shape(facts, e2, xt)
                 if s is None:
                     break
+                _kill(e2, xt['dest']['l'])
                 e2[xt['dest']['l']] = s
                 tg, res = xt['target'], False
             else:
                 break
             c = copy.deepcopy(xb)
+            c['stmts'] = cstmts
             chain.append((x, c, k))
             if res:
                 c['term'] = {'k': 'goto', 'target': tg, 'loc': xt.get('loc')}
                 resolved_at = len(chain) - 1
+            elif rewrote and resolved_at >= 0:
+                # an arm that reads the payload of the value just branched on: keep the copy that reads the operand directly
+                keep_to = len(chain) - 1
             seen.add(x)
             env = e2
             final = tg
         if resolved_at < 0:
             continue
-        chain = chain[:resolved_at + 1]
+        chain = chain[:max(resolved_at, keep_to) + 1]
+        # locals that live entirely inside the duplicated stretch get a private copy per duplicate, so that a variable bound in
+        # the arm (`Resume(next) => at = next`) keeps a single definition instead of one per predecessor
+        origs = {x for x, c, k in chain}
+        assigned = set()
+        for x, c, k in chain:
+            for st in c['stmts']:
+                if st['k'] == 'assign' and not st['p']['pr']:
+                    assigned.add(st['p']['l'])
+        if assigned:
+            outside = _locals_referenced(j, [i for i in range(len(blocks)) if i not in origs and not (blocks[i].get('threaded_from') in origs)])
+            private = {l for l in assigned if l not in outside and l > j['arg_count'] and l != 0}
+            if private:
+                ren = {}
+                for l in sorted(private):
+                    nl = dict(j['locals'][l])
+                    j['locals'].append(nl)
+                    ren[l] = len(j['locals']) - 1
+                for x, c, k in chain:
+                    _rename_locals(c, ren)
         # materialise: clone i continues in clone i+1; the last one jumps to the resolved (original) target
         base = len(blocks)
         for i, (x, c, k) in enumerate(chain):
@@ -217,6 +303,69 @@ def thread_returns(facts, j, first_inlined, headers):
     if changed:
         _blank_dead(j)
     return changed
+
+
+def _walk_places(blk, f):
+    """apply f to every place dict of a block (statements and terminator)"""
+    def op(o):
+        if isinstance(o, dict) and o.get('k') in ('copy', 'move'):
+            f(o['p'])
+    for st in blk['stmts']:
+        if st['k'] == 'assign':
+            f(st['p'])
+            r = st['r']
+            for key in ('a', 'b'):
+                if isinstance(r.get(key), dict):
+                    op(r[key])
+            if isinstance(r.get('p'), dict):
+                f(r['p'])
+            for o in r.get('ops', []) or []:
+                op(o)
+        elif st['k'] == 'setdiscr':
+            f(st['p'])
+        elif isinstance(st.get('l'), int):
+            f(st)
+    t = blk['term']
+    k = t['k']
+    if k == 'call':
+        for a in t['args']:
+            op(a)
+        f(t['dest'])
+        if 'indirect' in t['callee']:
+            op(t['callee']['indirect'])
+    elif k == 'switch':
+        op(t['discr'])
+    elif k == 'drop':
+        f(t['p'])
+    elif k == 'assert':
+        op(t['cond'])
+        for key in ('len', 'index'):
+            if key in t:
+                op(t[key])
+
+
+def _locals_referenced(j, block_ids):
+    out = set()
+
+    def f(p):
+        if 'l' in p and isinstance(p['l'], int):
+            out.add(p['l'])
+        for pr in p.get('pr', []) or []:
+            if isinstance(pr, dict) and 'idx' in pr:
+                out.add(pr['idx'])
+    for i in block_ids:
+        _walk_places(j['blocks'][i], f)
+    return out
+
+
+def _rename_locals(blk, ren):
+    def f(p):
+        if isinstance(p.get('l'), int) and p['l'] in ren:
+            p['l'] = ren[p['l']]
+        for pr in p.get('pr', []) or []:
+            if isinstance(pr, dict) and pr.get('idx') in ren:
+                pr['idx'] = ren[pr['idx']]
+    _walk_places(blk, f)
 
 
 def _blank_dead(j):
